@@ -309,7 +309,7 @@ def main():
     print("MANIFEST.json: %d checks, %d not_applicable" % (len(checks), len(na)))
 
 
-HOOK_COMMITS = ["6f9adbc", "a081719"]
+HOOK_COMMITS = ["6f9adbc", "a081719", "fe307dd"]
 
 if __name__ == "__main__":
     main()
